@@ -1,9 +1,11 @@
-\* the repaired design loses nothing (the design as it is, ArchiveAtLink = FALSE, violates
+\* the repaired design loses nothing (the design as it is, Atomic = FALSE, violates
 \* NothingLost: its behaviours are the schedules the harness forces on the real gateway)
 SPECIFICATION Spec
 CONSTANTS
- Procs = {"a", "b", "c"}
+ Procs = {"a", "b", "d"}
+ Dels = {"d"}
  Pre = TRUE
- ArchiveAtLink = TRUE
+ Atomic = TRUE
  Emit = FALSE
 INVARIANT NothingLost
+CHECK_DEADLOCK FALSE
